@@ -21,4 +21,7 @@ CASES = [
     dict(expect="silent", desc="do_action: early-return style", edits=[dict(file=DO,
          old="            if not on_completed:\n                observer.on_completed()\n            else:\n                try:\n                    on_completed()\n                except Exception as e:  # pylint: disable=broad-except\n                    observer.on_error(e)\n\n                observer.on_completed()",
          new="            if not on_completed:\n                observer.on_completed()\n                return\n            try:\n                on_completed()\n            except Exception as e:  # pylint: disable=broad-except\n                observer.on_error(e)\n            observer.on_completed()")]),
+    dict(expect="fire", desc="pre-fix: do_after_next drops the scheduler", names="A2-scheduler-forwarded", edits=[dict(file="reactivex/operators/_do.py",
+         old="        return source.subscribe(\n            on_next, observer.on_error, observer.on_completed, scheduler=scheduler\n        )\n\n    return Observable(subscribe)\n\n\ndef do_on_subscribe",
+         new="        return source.subscribe(on_next, observer.on_error, observer.on_completed)\n\n    return Observable(subscribe)\n\n\ndef do_on_subscribe")]),
 ]
